@@ -1,6 +1,7 @@
 import Driver.Proto
 import ZipVerif.Model.Writer
 import ZipVerif.Model.Reader
+import ZipVerif.Model.InterruptedW
 /- Ops `write.*`: a sequence of `ZipWriter` calls → per-call outcome + final sink bytes. -/
 
 namespace Driver
@@ -66,9 +67,54 @@ def showExc {α} (r : Except ZErr α) (f : α → String) : String :=
   | .ok a => f a
   | .error e => (Out.className e).replace " " ":"
 
+/-- the writer's step functions, either the writer model's (`Model/Writer.lean`, tied to the translated source) or the
+generic writer `GW` at `MI` - std's `Interrupted` convention (`Model/InterruptedW.lean`): `write_all` on the sink and the
+callers' `write_all` over `ZipWriter::write` retry, `seek` / `flush` do not.  `GW` at `M` IS the writer model
+(`GW.step_M`); the `MI` instance is used for `fault.write … kind=interrupted` only. -/
+structure WSteps where
+  startFile : WExt → Bytes → FileOptions → Step Unit
+  startFileWithExtraData : WExt → Bytes → FileOptions → Step Nat
+  startFileAligned : WExt → Bytes → FileOptions → UInt16 → Step Nat
+  writeData : Bytes → Step Unit
+  endLocalStartCentral : WExt → Step Nat
+  endExtraData : WExt → Step Nat
+  addDirectory : WExt → Bytes → FileOptions → Step Unit
+  addSymlink : WExt → Bytes → Bytes → FileOptions → Step Unit
+  rawCopy : WExt → FileData → Bytes → Bytes → Step Unit
+  finish : WExt → Step Unit
+  dropWriter : WExt → Step Unit
+
+def modelSteps : WSteps where
+  startFile := Model.startFile
+  startFileWithExtraData := Model.startFileWithExtraData
+  startFileAligned := Model.startFileAligned
+  writeData := Model.writeData
+  endLocalStartCentral := Model.endLocalStartCentral
+  endExtraData := Model.endExtraData
+  addDirectory := Model.addDirectory
+  addSymlink := Model.addSymlink
+  rawCopy := Model.rawCopy
+  finish := Model.finish
+  dropWriter := Model.dropWriter
+
+def whole (x : Bytes) : Nat := x.length
+
+def intrSteps : WSteps where
+  startFile := fun ext n o => (GW.startFile ext n o : GW.StepG MI Unit)
+  startFileWithExtraData := fun ext n o => (GW.startFileWithExtraData ext n o : GW.StepG MI Nat)
+  startFileAligned := fun ext n o a => (GW.startFileAligned whole ext n o a : GW.StepG MI Nat)
+  writeData := fun b => (GW.writeData whole b : GW.StepG MI Unit)
+  endLocalStartCentral := fun ext => (GW.endLocalStartCentral ext : GW.StepG MI Nat)
+  endExtraData := fun ext => (GW.endExtraData ext : GW.StepG MI Nat)
+  addDirectory := fun ext n o => (GW.addDirectory ext n o : GW.StepG MI Unit)
+  addSymlink := fun ext n t o => (GW.addSymlink whole ext n t o : GW.StepG MI Unit)
+  rawCopy := fun ext src raw n => (GW.rawCopy whole ext src raw n : GW.StepG MI Unit)
+  finish := fun ext => (GW.finish ext : GW.StepG MI Unit)
+  dropWriter := fun ext => (GW.dropWriter ext : GW.StepG MI Unit)
+
 /-- Execute one call token; returns the response token and the new (state, device), or a panic. -/
 def stepCall (ext : WExt) (srcs : List (Archive × Dev)) (tok : String) (s : WState) (d : Dev)
-    (fa : Option Nat := none) : Option (String × WState × Dev) :=
+    (fa : Option Nat := none) (W : WSteps := modelSteps) : Option (String × WState × Dev) :=
   let run {α} (st : Step α) (f : α → String) : Option (String × WState × Dev) :=
     match (st s) fa d with
     | (.ok (r, s'), d') => some (showExc r f, s', d')
@@ -77,25 +123,25 @@ def stepCall (ext : WExt) (srcs : List (Archive × Dev)) (tok : String) (s : WSt
   match tok.splitOn "," with
   | "sf" :: name :: opts => do
     let n ← parseHex name; let o ← parseOpts opts
-    run (startFile ext n o) fun _ => "ok"
+    run (W.startFile ext n o) fun _ => "ok"
   | "sx" :: name :: opts => do
     let n ← parseHex name; let o ← parseOpts opts
-    run (startFileWithExtraData ext n o) fun v => s!"ok={v}"
+    run (W.startFileWithExtraData ext n o) fun v => s!"ok={v}"
   | ["sa", name, m, l, dp, tp, perm, large, pw, al] => do
     let n ← parseHex name; let o ← parseOpts [m, l, dp, tp, perm, large, pw]; let al ← al.toNat?
-    run (startFileAligned ext n o (UInt16.ofNat al)) fun v => s!"ok={v}"
+    run (W.startFileAligned ext n o (UInt16.ofNat al)) fun v => s!"ok={v}"
   | ["w", h] => do
     let b ← parseHex h
-    run (writeData b) fun _ => "ok"
+    run (W.writeData b) fun _ => "ok"
   | ["fl"] => run flushWriter fun _ => "ok"
-  | ["el"] => run (endLocalStartCentral ext) fun v => s!"ok={v}"
-  | ["ex"] => run (endExtraData ext) fun v => s!"ok={v}"
+  | ["el"] => run (W.endLocalStartCentral ext) fun v => s!"ok={v}"
+  | ["ex"] => run (W.endExtraData ext) fun v => s!"ok={v}"
   | "dir" :: name :: opts => do
     let n ← parseHex name; let o ← parseOpts opts
-    run (addDirectory ext n o) fun _ => "ok"
+    run (W.addDirectory ext n o) fun _ => "ok"
   | "sym" :: name :: target :: opts => do
     let n ← parseHex name; let t ← parseHex target; let o ← parseOpts opts
-    run (addSymlink ext n t o) fun _ => "ok"
+    run (W.addSymlink ext n t o) fun _ => "ok"
   | ["c", h] => do
     let b ← parseHex h
     some ("ok", { s with comment := b }, d)
@@ -107,37 +153,38 @@ def stepCall (ext : WExt) (srcs : List (Archive × Dev)) (tok : String) (s : WSt
     | (.ok (_, raw), _) =>
       let src ← a.files[ei]?
       let nm ← (if name == "same" then some src.fileName else parseHex name)
-      run (rawCopy ext src raw nm) fun _ => "ok"
+      run (W.rawCopy ext src raw nm) fun _ => "ok"
     | (.err e, _) => some ("src:" ++ (Out.className e).replace " " ":", s, d)
     | (.panic _, _) => none
-  | ["fin"] => run (finish ext) fun _ => "ok"
+  | ["fin"] => run (W.finish ext) fun _ => "ok"
   | _ => some ("bad-call", s, d)
 
 def showFinal (d : Dev) : String :=
   if d.buf.length ≤ 6000 then s!"final={toHex d.buf}"
   else s!"final=crc:{(Spec.Crc32.crc32 d.buf).toNat}:{d.buf.length}"
 
-def runCallsF (ext : WExt) (srcs : List (Archive × Dev)) (fa : Option Nat) (tail : Dev → String) :
+def runCallsF (ext : WExt) (srcs : List (Archive × Dev)) (fa : Option Nat) (tail : Dev → String)
+    (W : WSteps := modelSteps) :
     List String → WState → Dev → List String → String
   | [], s, d, acc =>
     -- the harness drops the writer at the end of every run (after an explicit `drop` this is a no-op)
-    match (dropWriter ext s) fa d with
+    match (W.dropWriter ext s) fa d with
     | (.panic _, _) => " ".intercalate ("panic" :: acc).reverse
     | (_, d') => " ".intercalate acc.reverse ++ " " ++ showFinal d' ++ tail d'
   | t :: ts, s, d, acc =>
     if t == "drop" then
-      match (dropWriter ext s) fa d with
+      match (W.dropWriter ext s) fa d with
       | (.panic _, _) => " ".intercalate ("panic" :: acc).reverse
       | (.ok (_, _), d') => " ".intercalate ("ok" :: acc).reverse ++ " " ++ showFinal d' ++ tail d'
       | (.err _, d') => " ".intercalate ("ok" :: acc).reverse ++ " " ++ showFinal d' ++ tail d'
     else
-    match stepCall ext srcs t s d fa with
+    match stepCall ext srcs t s d fa W with
     | none => " ".intercalate ("panic" :: acc).reverse
-    | some (r, s', d') => runCallsF ext srcs fa tail ts s' d' (r :: acc)
+    | some (r, s', d') => runCallsF ext srcs fa tail W ts s' d' (r :: acc)
 
 def runCalls (ext : WExt) (srcs : List (Archive × Dev)) (calls : List String) (s : WState) (d : Dev)
     (acc : List String) : String :=
-  runCallsF ext srcs none (fun _ => "") calls s d acc
+  runCallsF ext srcs none (fun _ => "") modelSteps calls s d acc
 
 def opWrite (op : String) (a : Args) : Option String := do
   -- `write.big`: appending to a base with more than 65535 entries (about 5 MB) — an implementation-side
